@@ -1,10 +1,12 @@
 package props
 
 import (
+	"encoding/hex"
 	"fmt"
 	"reflect"
 	"strings"
 	"testing"
+	"unicode/utf8"
 
 	"github.com/hattya/go.sh/ast"
 	"github.com/hattya/go.sh/interp"
@@ -24,6 +26,25 @@ type c14Case struct {
 	// "parse" writes it as source text (unquoted text through $v, quoted text
 	// through '...', "..." or "$v") and parses that.
 	Via string `json:"via"`
+	// IFSHex replaces IFS in the record when IFS is not valid UTF-8.
+	IFSHex string `json:"ifs_hex,omitempty"`
+}
+
+// ifs returns the IFS value of the case.
+func (c c14Case) ifs() string {
+	if c.IFSHex != "" {
+		b, _ := hex.DecodeString(c.IFSHex)
+		return string(b)
+	}
+	return c.IFS
+}
+
+func mkC14(ifs string, set bool, via string) c14Case {
+	c := c14Case{IFS: ifs, IFSSet: set, Via: via}
+	if !utf8.ValidString(ifs) {
+		c.IFS, c.IFSHex = "", hex.EncodeToString([]byte(ifs))
+	}
+	return c
 }
 
 var c14Env = interp.NewExecEnv("sh")
@@ -48,7 +69,7 @@ func c14Word(c c14Case, vars map[string]string) (ast.Word, string, error) {
 	var b strings.Builder
 	for i, s := range c.Segs {
 		name := fmt.Sprintf("v%d", i)
-		plain := s.Text != "" && strings.IndexFunc(s.Text, func(r rune) bool {
+		plain := s.Text != "" && utf8.ValidString(s.Text) && strings.IndexFunc(s.Text, func(r rune) bool {
 			return !(r >= 'a' && r <= 'z' || r == ',' || r == ':' || r > 127)
 		}) == -1
 		switch {
@@ -62,7 +83,7 @@ func c14Word(c c14Case, vars map[string]string) (ast.Word, string, error) {
 			b.WriteString("${" + name + "}")
 		case s.Text == "":
 			b.WriteString([]string{`""`, `''`}[i%2])
-		case !strings.Contains(s.Text, "'") && i%3 == 0:
+		case !strings.Contains(s.Text, "'") && i%3 == 0 && utf8.ValidString(s.Text):
 			b.WriteString("'" + s.Text + "'")
 		default:
 			vars[name] = s.Text
@@ -86,6 +107,7 @@ func c14Word(c c14Case, vars map[string]string) (ast.Word, string, error) {
 
 func checkC14(c c14Case) error {
 	env := c14Env
+	ifs := c.ifs()
 	vars := map[string]string{}
 	word, src, err := c14Word(c, vars)
 	if err != nil {
@@ -93,7 +115,7 @@ func checkC14(c c14Case) error {
 	}
 	env.Opts |= interp.NoGlob
 	if c.IFSSet {
-		env.Set("IFS", c.IFS)
+		env.Set("IFS", ifs)
 	} else {
 		env.Unset("IFS")
 	}
@@ -111,14 +133,14 @@ func checkC14(c c14Case) error {
 		got, e = env.Expand(word, 0)
 		return e
 	}); err != nil {
-		return fmt.Errorf("Expand of %s (src %q) IFS=%q set=%v: %v", segString(c.Segs), src, c.IFS, c.IFSSet, err)
+		return fmt.Errorf("Expand of %s (src %q) IFS=%q set=%v: %v", segString(c.Segs), src, ifs, c.IFSSet, err)
 	}
-	want := ref.Split(c.Segs, c.IFS, c.IFSSet)
+	want := ref.Split(c.Segs, ifs, c.IFSSet)
 	if !(len(got) == 0 && len(want) == 0) && !reflect.DeepEqual(got, want) {
-		return fmt.Errorf("Expand of %s (src %q) IFS=%q set=%v: got %q, want %q", segString(c.Segs), src, c.IFS, c.IFSSet, got, want)
+		return fmt.Errorf("Expand of %s (src %q) IFS=%q set=%v: got %q, want %q", segString(c.Segs), src, ifs, c.IFSSet, got, want)
 	}
-	if cat, keep := strings.Join(got, ""), ref.Conserved(c.Segs, c.IFS, c.IFSSet); cat != keep {
-		return fmt.Errorf("Expand of %s IFS=%q set=%v: fields %q concatenate to %q, but the word without its unquoted IFS characters is %q", segString(c.Segs), c.IFS, c.IFSSet, got, cat, keep)
+	if cat, keep := strings.Join(got, ""), ref.Conserved(c.Segs, ifs, c.IFSSet); cat != keep {
+		return fmt.Errorf("Expand of %s IFS=%q set=%v: fields %q concatenate to %q, but the word without its unquoted IFS characters is %q", segString(c.Segs), ifs, c.IFSSet, got, cat, keep)
 	}
 	return nil
 }
@@ -136,7 +158,7 @@ func segString(segs []ref.Seg) string {
 }
 
 func c14NonTrivial(c c14Case) bool {
-	ifs := c.IFS
+	ifs := c.ifs()
 	if !c.IFSSet {
 		ifs = " \t\n"
 	}
@@ -168,6 +190,9 @@ type c14IFS struct {
 var c14Cfgs = []c14IFS{
 	{false, "", " ", ""}, {true, " \t\n", "\t", ""}, {true, " ,", " ", ","}, {true, ",", "", ","},
 	{true, ":", "", ":"}, {true, "", "", ""}, {true, "é ", " ", "é"}, {true, ",:", "", ":"}, {true, "\n,", "\n", ","},
+	// an IFS character that is not valid UTF-8 (the words use the same byte, so
+	// that "the same character" does not depend on how invalid bytes are compared)
+	{true, "\xff ", " ", "\xff"},
 }
 
 func TestC14(t *testing.T) {
@@ -196,7 +221,7 @@ func TestC14(t *testing.T) {
 		idx++
 		if idx%nsh == sh {
 			for ci, cfg := range c14Cfgs {
-				c := c14Case{IFS: cfg.val, IFSSet: cfg.set, Via: "ast"}
+				c := mkC14(cfg.val, cfg.set, "ast")
 				ok := true
 				for _, k := range prefix {
 					s, avail := syms[k].mk(cfg.ws, cfg.nws)
@@ -235,7 +260,7 @@ func TestC14(t *testing.T) {
 	}
 	rec(nil)
 	st.Exhaustive = true
-	st.Note("exhaustive: all words of <= %d segments over {ordinary, IFS white space, IFS non-white-space, non-IFS white space, quoted ordinary, quoted IFS characters, empty quotes} x %d IFS settings (unset, default, ' ,', ',', ':', empty, multi-byte, two non-white-space, newline+comma), word built as AST; a quarter of them also written as source text and parsed", maxn, len(c14Cfgs))
+	st.Note("exhaustive: all words of <= %d segments over {ordinary, IFS white space, IFS non-white-space, non-IFS white space, quoted ordinary, quoted IFS characters, empty quotes} x %d IFS settings (unset, default, ' ,', ',', ':', empty, multi-byte, two non-white-space, newline+comma, an invalid byte), word built as AST; a quarter of them also written as source text and parsed", maxn, len(c14Cfgs))
 
 	// (b) random longer words
 	n := 60000
@@ -250,14 +275,18 @@ func TestC14(t *testing.T) {
 			ifs = " \t\n"
 		}
 		alpha := []string{"a", "b", "z", "é", "\v", "日"}
-		for _, r := range ifs {
-			alpha = append(alpha, string(r), string(r))
+		for j := range ifs {
+			_, w := utf8.DecodeRuneInString(ifs[j:])
+			alpha = append(alpha, ifs[j:j+w], ifs[j:j+w])
 		}
 		alpha = append(alpha, " ", ",", ":", "\t", "\n")
+		if strings.Contains(ifs, "\xff") {
+			alpha = append(alpha, "\xff", "\xff\xff")
+		}
 		text := rapid.Custom(func(t *rapid.T) string {
 			return strings.Join(rapid.SliceOfN(rapid.SampledFrom(alpha), 0, 5).Draw(t, "text"), "")
 		})
-		c := c14Case{IFS: cfg.val, IFSSet: cfg.set, Via: rapid.SampledFrom([]string{"ast", "parse"}).Draw(rt, "via")}
+		c := mkC14(cfg.val, cfg.set, rapid.SampledFrom([]string{"ast", "parse"}).Draw(rt, "via"))
 		k := rapid.IntRange(0, 9).Draw(rt, "nseg")
 		for i := 0; i < k; i++ {
 			c.Segs = append(c.Segs, ref.Seg{Text: text.Draw(rt, "seg"), Quoted: rapid.Bool().Draw(rt, "quoted")})
@@ -265,7 +294,7 @@ func TestC14(t *testing.T) {
 		if err := checkC14(c); err != nil {
 			fail(rt, "C14", "split", c, "%v", err)
 		}
-		st.Eval(c14NonTrivial(c), segString(c.Segs), c.IFS, fmt.Sprint(c.IFSSet), c.Via)
+		st.Eval(c14NonTrivial(c), segString(c.Segs), c.ifs(), fmt.Sprint(c.IFSSet), c.Via)
 		st.Class("random_via_" + c.Via)
 		st.Sample(c)
 	}
